@@ -189,7 +189,7 @@ func yq(s string) string {
 	// … except that YAML wants DEL and the C1 controls escaped too
 	var sb strings.Builder
 	for _, r := range string(b) {
-		if r == 0x7f || (r >= 0x80 && r <= 0x9f) {
+		if r == 0x7f || (r >= 0x80 && r <= 0x9f) || r == 0xfeff || r == 0xfffe || r == 0xffff {
 			fmt.Fprintf(&sb, "\\u%04x", r)
 		} else {
 			sb.WriteRune(r)
